@@ -582,7 +582,7 @@ func renumber(h History, nf int) History {
 	return nh
 }
 
-var mergeBattery = []string{"sport:80 sort:id", "data:\"FLAG\" sort:id", "cdata:alpha sort:-id", "cbytes:100: sort:id", "chost:10.0.0.0/16 sort:id", "protocol:udp sort:id", "id:1:3 sort:id", "sort:id limit:3", "host:fd00::1:0/112 sort:id", "sbytes::50 sort:id limit:2", "-data:\"passwd\" sort:id", "sort:sbytes,id", "sort:-cbytes,id limit:4"}
+var mergeBattery = []string{"sport:80 sort:id", "data:\"FLAG\" sort:id", "cdata:alpha sort:-id", "cbytes:100: sort:id", "chost:10.0.0.0/16 sort:id", "protocol:udp sort:id", "id:1:3 sort:id", "sort:id limit:3", "host:fd00::1:0/112 sort:id", "sbytes::50 sort:id limit:2", "-data:\"passwd\" sort:id", "sort:sbytes,id", "sort:-cbytes,id limit:4", "chost:10.0.0.0/8 sort:id", "host:fd00::/16 sort:id", "-chost:10.0.0.0/8 sort:id", "-shost:fd00::/16 sort:id", "@s:id:0 ftime:@s:ltime@: sort:id", "@s:id:1 ltime::@s:ftime@+10s sort:id", "@s:id:2 ftime:@s:ftime@-30s:@s:ltime@+30s sort:id"}
 
 func stackSig(readers []*index.Reader) (string, error) {
 	vis, err := oracle.Visible(readers)
